@@ -11,13 +11,17 @@ use std::time::{Duration, Instant};
 
 pub const BLOCK_SIZES: [usize; 8] = [512, 1024, 2048, 4096, 8192, 16384, 32768, 65536];
 
-fn ref_sig(data: &[u8], bs: usize) -> Signature {
+/// exact = weak hash from the defining formula (C16/C17); otherwise from the crate's own block routine
+/// (C01 only needs every producer to agree, not the value of the weak hash)
+fn ref_sig_mode(data: &[u8], bs: usize, exact: bool) -> Signature {
     let mut s = Signature::new(bs, data.len() as u64);
     for (i, c) in data.chunks(bs).enumerate() {
-        s.blocks.push(BlockSignature::new(i as u32, reference(c).2, StrongHash::compute(c)));
+        if exact { s.blocks.push(BlockSignature::new(i as u32, reference(c).2, StrongHash::compute(c))); }
+        else { s.blocks.push(BlockSignature::compute(i as u32, c)); }
     }
     s
 }
+fn ref_sig(data: &[u8], bs: usize) -> Signature { ref_sig_mode(data, bs, true) }
 
 /// data generators: kind 0 random, 1 all 0xFF, 2 zeros, 3 repeated block, 4 high bytes
 pub fn gen(kind: u32, n: usize, seed: u64) -> Vec<u8> {
@@ -31,7 +35,9 @@ pub fn gen(kind: u32, n: usize, seed: u64) -> Vec<u8> {
     }
 }
 
-pub fn twin_signature_generate(seed: u64, budget: u64) -> i32 {
+pub fn twin_signature_generate(seed: u64, budget: u64) -> i32 { twin_siggen(seed, budget, true) }
+pub fn twin_signature_structure(seed: u64, budget: u64) -> i32 { twin_siggen(seed, budget, false) }
+fn twin_siggen(seed: u64, budget: u64, exact: bool) -> i32 {
     let t0 = Instant::now();
     let mut cases = 0u64;
     let mut r = Rng(seed);
@@ -40,7 +46,7 @@ pub fn twin_signature_generate(seed: u64, budget: u64) -> i32 {
         for &bs in &BLOCK_SIZES {
             let n = match round % 8 { 0 => 0, 1 => 1, 2 => bs - 1, 3 => bs, 4 => bs + 1, 5 => 3 * bs + 7, 6 => 65536 + 1 + r.below(70000) as usize, _ => r.below(4 * bs as u64) as usize };
             let data = gen(round / 8, n, seed + round as u64);
-            let want = ref_sig(&data, bs);
+            let want = ref_sig_mode(&data, bs, exact);
             let got = std::panic::catch_unwind(|| Signature::generate(&mut Cursor::new(&data), bs));
             cases += 1;
             let bad = match got { Ok(Ok(g)) => if g != want { Some("differs from the block-wise definition") } else { None }, Ok(Err(_)) => Some("returned an error"), Err(_) => Some("panicked") };
@@ -153,9 +159,11 @@ fn check_pair(basis: &[u8], src: &[u8], bs: usize, greedy_only: bool) -> Option<
         let d = match sync.delta(Cursor::new(src), &sig) { Ok(d) => d, Err(e) => return Some(format!("delta failed: {e}")) };
         let ad = match rt().block_on(asy.delta(Cursor::new(src.to_vec()), &sig)) { Ok(d) => d, Err(e) => return Some(format!("async delta failed: {e}")) };
         for (name, d) in [("CopiaSync::delta", &d), ("AsyncCopiaSync::delta", &ad)] {
-            let g = greedy_lit(src, basis, bs);
-            if d.bytes_literal() > g { return Some(format!("{name}: {} literal bytes, the textbook greedy scan needs {g}", d.bytes_literal())); }
-            if greedy_only { continue; }
+            if greedy_only {
+                let g = greedy_lit(src, basis, bs);
+                if d.bytes_literal() > g { return Some(format!("{name}: {} literal bytes, the textbook greedy scan needs {g}", d.bytes_literal())); }
+                continue;
+            }
             if d.source_size != src.len() as u64 || d.checksum != StrongHash::compute(src) { return Some(format!("{name}: declared size/checksum are not those of the source")); }
             if d.bytes_matched() + d.bytes_literal() != src.len() as u64 { return Some(format!("{name}: copy+literal lengths do not sum to the source size")); }
             for op in &d.ops { if let DeltaOp::Copy { offset, len } = op { if offset + u64::from(*len) > basis.len() as u64 { return Some(format!("{name}: a copy lies outside the basis")); } } }
